@@ -95,8 +95,7 @@ func runC20Shape(p *Program, r *Report) {
 		if site.Store.Block().Dominates(ret.Block()) {
 			continue
 		}
-		k, ok := ret.Results[0].(*ssa.Const)
-		r.Check(ok && k.Value == nil, "C20.R1", fmt.Sprintf("%s#error-return%d", cname, i), p.Pos(ret.Pos()), "error path returns the zero TrustedSource", "a path that bypasses the checked construction returns a non-zero TrustedSource")
+		r.Check(zeroResultAt(ret, 0), "C20.R1", fmt.Sprintf("%s#error-return%d", cname, i), p.Pos(ret.Pos()), "error path returns the zero TrustedSource", "a path that bypasses the checked construction returns a non-zero TrustedSource")
 	}
 	// guards as a language over filename
 	sep, ok1 := stdConstRune(p, "path/filepath", "Separator")
